@@ -142,6 +142,18 @@ def run(chk, tier):
                               "the element at `%s` is never visited and is not handled after the loop" % (
                                   astx.loc(f, loop), cur, cur, beg, beg), {"where": astx.loc(f, loop)})
     chk.extra["downward_scans"] = n_rev
+    n_cfg = 0
+    for f in funcs:
+        r = IT.check_static_agreement(f)
+        if r is None:
+            continue
+        n_cfg += 1
+        construct = astx.sig(f)
+        chk.instance("IT5")
+        chk.obligation("IT5", construct, not r)
+        for endp, why in r[:1]:
+            chk.violation("IT5", construct, "range-end-ignored", "%s: when %s the parameter `%s` is never read, so the result cannot depend on "
+                          "where that range ends (the other `if constexpr` alternative reads it)" % (astx.loc(f), why, endp), {"where": astx.loc(f)})
     # positive controls (expected count on the library is zero for IT3/IT4 violations)
     fx = D.load_source('#include "%s"\n' % FIXTURE, root=os.path.dirname(FIXTURE) + "/", tag="fixture-iter")
     fxf = dict((g["n"], g) for g in fx.funcs)
